@@ -116,14 +116,14 @@ theorem typeLook_shift (k : Nat) (ts : List Spanned) : typeLook (ts.map (shiftTo
   | nil => rfl
   | cons t ts => simp only [List.map_cons, typeLook, shiftTok, typeLoop_shift]
 
-theorem softTok_shift (k : Nat) (sol : Bool) (t : Spanned) (ts : List Spanned) :
-    softTok sol (shiftTok k t) (ts.map (shiftTok k)) = softTok sol t ts := by
+theorem softTok_shift (k : Nat) (sol sos : Bool) (t : Spanned) (ts : List Spanned) :
+    softTok sol sos (shiftTok k t) (ts.map (shiftTok k)) = softTok sol sos t ts := by
   unfold softTok
   simp only [shiftTok, matchCaseLook_shift, typeLook_shift]
 
-theorem softKwGo_shift (k : Nat) (ts : List Spanned) (sol : Bool) :
-    softKwGo (ts.map (shiftTok k)) sol = (softKwGo ts sol).map (shiftTok k) := by
-  induction ts generalizing sol with
+theorem softKwGo_shift (k : Nat) (ts : List Spanned) (st : SoftSt) :
+    softKwGo (ts.map (shiftTok k)) st = (softKwGo ts st).map (shiftTok k) := by
+  induction ts generalizing st with
   | nil => rfl
   | cons t ts ih =>
     simp only [List.map_cons, softKwGo, softTok_shift, ih]
